@@ -562,7 +562,7 @@ func (interp *Interpreter) eval(src, name string, inc bool) (res reflect.Value, 
 		return res, err
 	}
 
-	if interp.noRun {
+	if interp.noRun || prog == nil {
 		return res, err
 	}
 
